@@ -1,11 +1,6 @@
 /*!
  * \file harness/C24/common.hxx
  * \brief T1 tracing support shared by the C24 and C55 tracers:
- *  - the patched recording scalar (c24_sym.hxx is generated on every run by
- *    checks/C24.py / checks/C55.py from harness/symtrace/sym.hxx: a `double`
- *    that is not a small dyadic rational becomes a *pending literal* instead of
- *    calling the non-constexpr `Sym::lit`, so that
- *    `static constexpr real eps = 1.e-14;` is a constant expression for Sym);
  *  - `std::log1p` for Sym (uninterpreted call `log1p`);
  *  - the **eigen-solver oracle**: the two numerical kernels used by
  *    `stensor<N,T>::computeEigenVectors<FSESJACOBIEIGENSOLVER>` (3D:
@@ -22,7 +17,7 @@
 #define VERIF_C24_COMMON_HXX
 
 #include <cmath>
-#include "c24_sym.hxx"
+#include "sym.hxx"
 
 namespace verif {
   inline Sym log1p(const Sym& x) {
